@@ -46,18 +46,23 @@ class RecordingQueue(object):
 
 class EdgeRun(object):
     def __init__(self, events, verdicts=None, banner_verdict=None, auth=False, tls='none', size=None,
-                 tls_stream=None, cuts=None, ctl=None, context_fail=False):
-        self.events = list(events)
+                 tls_events=None, cuts=None, ctl=None, context_fail=False):
+        self.clear_events = list(events)
+        self.tls_events = list(tls_events) if tls_events is not None else None
+        self.events = self.clear_events + (self.tls_events or [])
+        tls_stream = b''.join(self.tls_events) if self.tls_events is not None else None
         self.verdicts = list(verdicts) if verdicts is not None else [None] * len(self.events)
         self.banner_verdict = banner_verdict
         self.auth, self.tls, self.size = auth, tls, size
-        self.stream = b''.join(self.events)
+        self.stream = b''.join(self.clear_events)
         self.ends = []
         p = 0
         for e in self.events:
             p += len(e)
             self.ends.append(p)
         self.trace = []          # (event index, name, args...)
+        self.mail_time_auth = []
+        self.creds = []
         self.server = None
         self.session = None
         self.end = None
@@ -68,8 +73,6 @@ class EdgeRun(object):
     # ---- bookkeeping used by the recording validators / queue
     def current_event(self):
         pos = self.sock.pos
-        if self.sock.clear_len is not None and self.sock.tls_stream is not None:
-            return len(self.events)      # strict TLS channel: events are indexed by the caller
         if pos == 0:
             return -1
         return bisect.bisect_left(self.ends, pos)
@@ -106,9 +109,11 @@ class EdgeRun(object):
                 self._do(reply, 'HELO', helo_as)
 
             def handle_auth(self, reply, creds):
+                run.creds.append(creds)
                 self._do(reply, 'AUTH', creds.authcid, getattr(creds, '_secret', None), creds.authzid or None)
 
             def handle_mail(self, reply, sender, params):
+                run.mail_time_auth.append(self.session.auth)
                 self._do(reply, 'MAIL', sender)
 
             def handle_rcpt(self, reply, rcpt, params):
